@@ -169,4 +169,362 @@ theorem strtod_le (fuel p : Nat) (hp : p ≤ len) : (strtod rd fuel p).1 ≤ len
   · exact strtodDec_le hz fuel _ p q hp hq
 
 end
+
+/-! ### reader primitives keep the cursor inside the buffer and never trip the overrun guard -/
+
+theorem Inp.rd_zero (inp : Inp) : ∀ p, inp.len ≤ p → inp.rd p = 0 := by
+  intro p hp
+  unfold Inp.rd Inp.len at *
+  split
+  · omega
+  · rfl
+
+/-- started inside the buffer (`pos ≤ len`), `f` ends inside the buffer and does not execute UB -/
+structure LSafe (len : Nat) (f : L α) : Prop where
+  ok : ∀ r, r.pos ≤ len → ∀ a r', f r = .ok a r' → r'.pos ≤ len
+  noub : ∀ r, r.pos ≤ len → ∀ u, f r ≠ .ub u
+
+theorem lsafe_pure {len : Nat} {a : α} : LSafe len (pure a : L α) :=
+  ⟨fun r hr a' r' h => (by cases h; exact hr), fun r _ u h => (by cases h)⟩
+
+theorem lsafe_bind {len : Nat} {x : L α} {f : α → L β} (hx : LSafe len x) (hf : ∀ a, LSafe len (f a)) :
+    LSafe len (x >>= f) := by
+  constructor
+  · intro r hr a' r' h
+    change L.bind x f r = _ at h
+    unfold L.bind at h
+    cases hxr : x r with
+    | ok a r1 => rw [hxr] at h; exact (hf a).ok r1 (hx.ok r hr a r1 hxr) a' r' h
+    | err e => rw [hxr] at h; cases h
+    | ub u => rw [hxr] at h; cases h
+  · intro r hr u h
+    change L.bind x f r = _ at h
+    unfold L.bind at h
+    cases hxr : x r with
+    | ok a r1 => rw [hxr] at h; exact (hf a).noub r1 (hx.ok r hr a r1 hxr) u h
+    | err e => rw [hxr] at h; cases h
+    | ub u' => exact hx.noub r hr u' hxr
+
+theorem lsafe_get_bind {len : Nat} {f : RState → L β} (hf : ∀ r0, r0.pos ≤ len → LSafe len (f r0)) :
+    LSafe len (L.get >>= f) := by
+  constructor
+  · intro r hr a' r' h
+    change L.bind L.get f r = _ at h
+    unfold L.bind L.get at h
+    exact (hf r hr).ok r hr a' r' h
+  · intro r hr u h
+    change L.bind L.get f r = _ at h
+    unfold L.bind L.get at h
+    exact (hf r hr).noub r hr u h
+
+theorem lsafe_set {len : Nat} {r' : RState} (h : r'.pos ≤ len) : LSafe len (L.set r') :=
+  ⟨fun r _ a r'' h' => (by cases h'; exact h), fun r _ u h' => (by cases h')⟩
+
+theorem lsafe_ite {len : Nat} {p q : L α} {cnd : Prop} [Decidable cnd] (h1 : LSafe len p) (h2 : LSafe len q) :
+    LSafe len (if cnd then p else q) := by
+  by_cases hc : cnd
+  · rw [if_pos hc]; exact h1
+  · rw [if_neg hc]; exact h2
+
+/-- conditional whose `then` branch may use the condition -/
+theorem lsafe_dite {len : Nat} {p q : L α} {cnd : Prop} [Decidable cnd] (h1 : cnd → LSafe len p) (h2 : ¬cnd → LSafe len q) :
+    LSafe len (if cnd then p else q) := by
+  by_cases hc : cnd
+  · rw [if_pos hc]; exact h1 hc
+  · rw [if_neg hc]; exact h2 hc
+
+section
+variable (inp : Inp)
+
+theorem tReportAt_safe {loc : Nat} {cls : ErrCls} : LSafe inp.len (tReportAt inp loc cls : L α) := by
+  constructor
+  · intro r _ a r' h; unfold tReportAt at h; split at h <;> cases h
+  · intro r _ u h; unfold tReportAt at h; split at h <;> cases h
+theorem tReport_safe {cls : ErrCls} : LSafe inp.len (tReport inp cls : L α) := by
+  constructor
+  · intro r hr a r' h; exact (tReportAt_safe inp).ok r hr a r' h
+  · intro r hr u h; exact (tReportAt_safe inp).noub r hr u h
+theorem bReport_safe {cls : ErrCls} : LSafe inp.len (bReport cls : L α) :=
+  ⟨fun r _ a r' h => (by cases h), fun r _ u h => (by cases h)⟩
+
+theorem skipSpaceFrom_le : ∀ fuel p, p ≤ inp.len → skipSpaceFrom inp fuel p ≤ inp.len := by
+  intro fuel; induction fuel with
+  | zero => intro p hp; exact hp
+  | succ n ih =>
+    intro p hp; unfold skipSpaceFrom; simp only; split
+    · rename_i h
+      simp only [Bool.and_eq_true] at h
+      exact ih _ (lt_of_ne0 inp.rd_zero (isSpace_ne0 h.1))
+    · exact hp
+
+theorem tSkipSpace_safe : LSafe inp.len (tSkipSpace inp) := by
+  constructor
+  · intro r hr a r' h; unfold tSkipSpace at h
+    split at h
+    · cases h
+    · cases h; exact skipSpaceFrom_le inp _ _ hr
+  · intro r hr u h; unfold tSkipSpace at h
+    split at h
+    · omega
+    · cases h
+
+theorem digitsLoop_le (bits : Nat) : ∀ fuel p res v p', p ≤ inp.len →
+    digitsLoop inp bits fuel p res = some (v, p') → p' ≤ inp.len := by
+  intro fuel; induction fuel with
+  | zero => intro p res v p' hp h; simp [digitsLoop] at h; omega
+  | succ n ih =>
+    intro p res v p' hp h
+    unfold digitsLoop at h
+    simp only at h
+    split at h
+    · rename_i hd
+      split at h
+      · cases h
+      · exact ih _ _ _ _ (lt_of_ne0 inp.rd_zero (isDigit_ne0 hd)) h
+    · simp at h; omega
+
+theorem tReadIntWithoutSign_safe {bits max : Nat} : LSafe inp.len (tReadIntWithoutSign inp bits max) := by
+  constructor
+  · intro r hr a r' h; unfold tReadIntWithoutSign at h
+    split at h
+    · cases h
+    · split at h
+      · cases h; exact hr
+      · split at h
+        · exact (tReport_safe inp).ok r hr a r' h
+        · rename_i v p hd
+          have := digitsLoop_le inp bits _ _ _ _ _ hr hd
+          split at h
+          · exact (tReport_safe inp).ok _ this a r' h
+          · cases h; exact this
+  · intro r hr u h; unfold tReadIntWithoutSign at h
+    split at h
+    · omega
+    · split at h
+      · cases h
+      · split at h
+        · exact (tReport_safe inp).noub r hr u h
+        · rename_i v p hd
+          have := digitsLoop_le inp bits _ _ _ _ _ hr hd
+          split at h
+          · exact (tReport_safe inp).noub _ this u h
+          · cases h
+
+theorem tReadUInt_safe : LSafe inp.len (tReadUInt inp) := by
+  unfold tReadUInt
+  refine lsafe_bind (tSkipSpace_safe inp) (fun _ => lsafe_bind (tReadIntWithoutSign_safe inp) (fun o => ?_))
+  cases o
+  · exact tReport_safe inp
+  · exact lsafe_pure
+
+theorem tReadUIntSize_safe : LSafe inp.len (tReadUIntSize inp) := by
+  unfold tReadUIntSize
+  refine lsafe_bind (tSkipSpace_safe inp) (fun _ => lsafe_bind (tReadIntWithoutSign_safe inp) (fun o => ?_))
+  cases o
+  · exact tReport_safe inp
+  · exact lsafe_pure
+
+theorem tReadOptionalUInt_safe : LSafe inp.len (tReadOptionalUInt inp) := by
+  unfold tReadOptionalUInt
+  exact lsafe_bind (tSkipSpace_safe inp) (fun _ => tReadIntWithoutSign_safe inp)
+
+theorem tReadUIntAcc_safe (acc : Nat) : LSafe inp.len (tReadUIntAcc inp acc) := by
+  unfold tReadUIntAcc
+  exact lsafe_bind (tReadUInt_safe inp) (fun _ => lsafe_ite (tReport_safe inp) lsafe_pure)
+
+theorem tReadInt_safe {bits : Nat} : LSafe inp.len (tReadInt inp bits) := by
+  unfold tReadInt
+  refine lsafe_bind (tSkipSpace_safe inp) (fun _ => lsafe_get_bind (fun r0 h0 => ?_))
+  have rest : ∀ u : PUnit, LSafe inp.len (do
+      let __do_lift ← tReadIntWithoutSign inp bits (2 ^ bits - 1)
+      match __do_lift with
+        | none => tReport inp ErrCls.int
+        | some result =>
+          if (decide (result > 2 ^ (bits - 1) - 1) && !(inp.rd r0.pos == 45 && result == 2 ^ (bits - 1) - 1 + 1)) = true then tReport inp ErrCls.toobig
+          else pure (if (inp.rd r0.pos != 45) = true then (result : Int) else -(result : Int))) := by
+    intro _
+    refine lsafe_bind (tReadIntWithoutSign_safe inp) (fun o => ?_)
+    cases o
+    · exact tReport_safe inp
+    · exact lsafe_ite (tReport_safe inp) lsafe_pure
+  simp only []
+  split
+  · rename_i hs
+    have : inp.rd r0.pos ≠ 0 := by intro h0; rw [h0] at hs; simp at hs
+    have := lt_of_ne0 inp.rd_zero this
+    exact lsafe_bind (lsafe_set (by simp; omega)) rest
+  · exact rest ()
+
+theorem tReadDouble_safe : LSafe inp.len (tReadDouble inp) := by
+  unfold tReadDouble
+  refine lsafe_bind (tSkipSpace_safe inp) (fun _ => lsafe_get_bind (fun r0 h0 => ?_))
+  refine lsafe_ite ?_ (tReport_safe inp)
+  have := strtod_le inp.rd_zero (inp.len + 2 - r0.pos) r0.pos h0
+  generalize strtod inp.rd (inp.len + 2 - r0.pos) r0.pos = pv at this
+  obtain ⟨p, v⟩ := pv
+  simp only at this ⊢
+  exact lsafe_ite (tReport_safe inp) (lsafe_bind (lsafe_set (by simpa using this)) (fun _ => lsafe_pure))
+
+theorem tReadOptionalDouble_safe : LSafe inp.len (tReadOptionalDouble inp) := by
+  unfold tReadOptionalDouble
+  refine lsafe_bind (tSkipSpace_safe inp) (fun _ => lsafe_get_bind (fun r0 h0 => ?_))
+  refine lsafe_ite lsafe_pure ?_
+  have := strtod_le inp.rd_zero (inp.len + 2 - r0.pos) r0.pos h0
+  generalize strtod inp.rd (inp.len + 2 - r0.pos) r0.pos = pv at this
+  obtain ⟨p, v⟩ := pv
+  simp only at this ⊢
+  exact lsafe_bind (lsafe_set (by simpa using this)) (fun _ => lsafe_pure)
+
+theorem findEol_le : ∀ fuel p p', p ≤ inp.len → findEol inp fuel p = some p' → p' ≤ inp.len := by
+  intro fuel; induction fuel with
+  | zero => intro p p' _ h; simp [findEol] at h
+  | succ n ih =>
+    intro p p' hp h
+    unfold findEol at h
+    simp only at h
+    split at h
+    · cases h
+    · rename_i hnz
+      have hlt : p < inp.len := lt_of_ne0 inp.rd_zero (by intro h0; rw [h0] at hnz; simp at hnz)
+      split at h
+      · simp at h; omega
+      · exact ih _ _ hlt h
+
+theorem tReadTillEndOfLine_safe : LSafe inp.len (tReadTillEndOfLine inp) := by
+  constructor
+  · intro r hr a r' h; unfold tReadTillEndOfLine at h
+    split at h
+    · cases h
+    · split at h
+      · rename_i p hp
+        cases h
+        exact findEol_le inp _ _ _ hr hp
+      · unfold tReportAt at h; simp only at h; split at h <;> cases h
+  · intro r hr u h; unfold tReadTillEndOfLine at h
+    split at h
+    · omega
+    · split at h
+      · cases h
+      · unfold tReportAt at h; simp only at h; split at h <;> cases h
+
+theorem nameEnd_le : ∀ fuel p, p ≤ inp.len → nameEnd inp fuel p ≤ inp.len := by
+  intro fuel; induction fuel with
+  | zero => intro p hp; exact hp
+  | succ n ih =>
+    intro p hp; unfold nameEnd; simp only; split
+    · rename_i h
+      simp only [Bool.and_eq_true] at h
+      exact ih _ (lt_of_ne0 inp.rd_zero (by intro h0; rw [h0] at h; simp at h))
+    · exact hp
+
+theorem tReadName_safe : LSafe inp.len (tReadName inp) := by
+  unfold tReadName
+  refine lsafe_bind (tSkipSpace_safe inp) (fun _ => lsafe_get_bind (fun r0 h0 => ?_))
+  simp only
+  refine lsafe_dite (fun _ => tReport_safe inp) (fun hc => ?_)
+  have hlt : r0.pos < inp.len := lt_of_ne0 inp.rd_zero (by intro h0; rw [h0] at hc; simp at hc)
+  exact lsafe_bind (lsafe_set (by simp only; exact nameEnd_le inp _ _ hlt)) (fun _ => lsafe_pure)
+
+theorem strLoop_le : ∀ n r r', r.pos ≤ inp.len → strLoop inp n r = some r' → r'.pos ≤ inp.len := by
+  intro n; induction n with
+  | zero => intro r r' hr h; simp [strLoop] at h; subst h; exact hr
+  | succ n ih =>
+    intro r r' hr h
+    unfold strLoop at h
+    simp only at h
+    split at h
+    · rename_i hnl
+      have hlt : r.pos < inp.len := lt_of_ne0 inp.rd_zero (beq_ne0 (by decide) hnl)
+      exact ih _ _ (by simp; omega) h
+    · split at h
+      · cases h
+      · rename_i hne
+        have hlt : r.pos < inp.len := by
+          apply Nat.lt_of_le_of_ne hr
+          intro heq
+          apply hne
+          simp [heq, inp.rd_zero inp.len (Nat.le_refl _)]
+        exact ih _ _ (by simp; omega) h
+
+theorem strLoopFail_le : ∀ n r, r.pos ≤ inp.len → (strLoopFail inp n r).pos ≤ inp.len := by
+  intro n; induction n with
+  | zero => intro r hr; exact hr
+  | succ n ih =>
+    intro r hr
+    unfold strLoopFail
+    simp only
+    split
+    · rename_i hnl
+      have hlt : r.pos < inp.len := lt_of_ne0 inp.rd_zero (beq_ne0 (by decide) hnl)
+      exact ih _ (by simp; omega)
+    · split
+      · exact hr
+      · rename_i hne
+        have hlt : r.pos < inp.len := by
+          apply Nat.lt_of_le_of_ne hr
+          intro heq
+          apply hne
+          simp [heq, inp.rd_zero inp.len (Nat.le_refl _)]
+        exact ih _ (by simp; omega)
+
+theorem tReadString_safe : LSafe inp.len (tReadString inp) := by
+  unfold tReadString
+  refine lsafe_bind (tReadUInt_safe inp) (fun length => lsafe_get_bind (fun r0 h0 => ?_))
+  refine lsafe_dite (fun _ => tReportAt_safe inp) (fun hc => ?_)
+  have hlt : r0.pos < inp.len := lt_of_ne0 inp.rd_zero (by intro h0; rw [h0] at hc; simp at hc)
+  simp only
+  split
+  · refine lsafe_bind (lsafe_set ?_) (fun _ => tReportAt_safe inp)
+    exact strLoopFail_le inp _ _ (by simp; omega)
+  · rename_i r' hr'
+    have h1 := strLoop_le inp _ _ _ (by simp; omega) hr'
+    refine lsafe_dite (fun _ => lsafe_bind (lsafe_set h1) (fun _ => tReportAt_safe inp)) (fun hnl => ?_)
+    have : r'.pos < inp.len := lt_of_ne0 inp.rd_zero (by intro h0; rw [h0] at hnl; simp at hnl)
+    exact lsafe_bind (lsafe_set (by simp; omega)) (fun _ => lsafe_pure)
+
+/-! binary: every advance is length-checked -/
+
+theorem bRead_safe {n : Nat} : LSafe inp.len (bRead inp n) := by
+  constructor
+  · intro r hr a r' h; unfold bRead at h
+    split at h
+    · cases h
+    · rename_i hlen
+      cases h; simp; omega
+  · intro r hr u h; unfold bRead at h
+    split at h <;> cases h
+
+theorem bReadInt_safe {n : Nat} {swap : Bool} : LSafe inp.len (bReadInt inp swap n) := by
+  unfold bReadInt
+  exact lsafe_get_bind (fun r0 h0 => lsafe_bind (lsafe_set (by simpa using h0)) (fun _ => lsafe_bind (bRead_safe inp) (fun _ => lsafe_pure)))
+
+theorem bReadUInt_safe {swap : Bool} : LSafe inp.len (bReadUInt inp swap) := by
+  unfold bReadUInt
+  exact lsafe_bind (bReadInt_safe inp) (fun _ => lsafe_ite (bReport_safe inp) lsafe_pure)
+
+theorem bReadDouble_safe {swap : Bool} : LSafe inp.len (bReadDouble inp swap) := by
+  unfold bReadDouble
+  exact lsafe_get_bind (fun r0 h0 => lsafe_bind (lsafe_set (by simpa using h0)) (fun _ => lsafe_bind (bRead_safe inp) (fun _ => lsafe_pure)))
+
+theorem bReadString_safe {swap : Bool} : LSafe inp.len (bReadString inp swap) := by
+  unfold bReadString
+  exact lsafe_bind (bReadUInt_safe inp) (fun _ => lsafe_ite (lsafe_bind (bRead_safe inp) (fun _ => lsafe_pure)) lsafe_pure)
+
+/-- the safety facts about the lifted primitives of one reader kind -/
+structure PrimSafe (inp : Inp) (k : RKind) : Prop where
+  uint : LSafe inp.len (rReadUInt inp k)
+  int : ∀ b, LSafe inp.len (rReadInt inp k b)
+  dbl : LSafe inp.len (rReadDouble inp k)
+  str : LSafe inp.len (rReadString inp k)
+  name : LSafe inp.len (rReadName inp k)
+  eol : LSafe inp.len (rEol inp k)
+
+theorem primSafe (k : RKind) : PrimSafe inp k := by
+  cases k with
+  | text => exact ⟨tReadUInt_safe inp, fun _ => tReadInt_safe inp, tReadDouble_safe inp, tReadString_safe inp,
+      tReadName_safe inp, tReadTillEndOfLine_safe inp⟩
+  | bin s => exact ⟨bReadUInt_safe inp, fun _ => bReadInt_safe inp, bReadDouble_safe inp, bReadString_safe inp,
+      bReadString_safe inp, lsafe_pure⟩
+
+end
 end MpVerif.C02
